@@ -177,7 +177,8 @@ class wrapper(dictattr):
     def _kwargs(self):
         return {key: value for key, value in self.items() if key!=_function and key!=_spec}
 
-    def __call__(self, *args, **kwargs):
+    def __call__(*args, **kwargs):
+        self, args = args[0], args[1:] ## self is taken positionally: a keyword called `self` (a column or key of that name presented by name) belongs to the wrapped function
         if self[_function] is None and len(args) == 1 and len(kwargs) == 0:
             return type(self)(function = args[0], **self._kwargs)
         else:
@@ -381,7 +382,8 @@ class kwargs_support(wrapper):
     def _args(self):
         return getargs(self.function)
         
-    def wrapped(self, *args, **kwargs):
+    def wrapped(*args, **kwargs):
+        self, args = args[0], args[1:] ## as in wrapper.__call__: rows and mappings are presented by name and may hold a key called `self`
         _args = self._args
         kwargs = {key : value for key, value in kwargs.items() if key in _args}
         return self.function(*args, **kwargs)
